@@ -89,8 +89,10 @@ STR_CLASSES = {
     "edge_space": [" lead", "trail ", "ab", " both "],
     "non_ascii": ["café", "ab", "über", "xyz"],
 }
-STR_WEIGHTS = ["plain"] * 6 + ["inner_space"] * 3 + ["comma"] * 2 + ["quote"] * 2 + ["na_like"] * 2 + ["has_empty"] * 2 + \
-              ["edge_space"] * 2 + ["non_ascii"]
+# "has_empty" ('' is indistinguishable from a missing entry in CSV and comes back as 'nan') and "edge_space"
+# (leading / trailing blanks are stripped by the ascii formats) are at the edge of "clearly non-numeric text ...
+# preserved up to the format's encoding": they are kept out of the generated domain rather than judged.
+STR_WEIGHTS = ["plain"] * 6 + ["inner_space"] * 3 + ["comma"] * 2 + ["quote"] * 2 + ["na_like"] * 2 + ["non_ascii"]
 
 
 def gen_column(rng, kind, shape, image=False):
